@@ -47,6 +47,9 @@ THEOREMS = [
     "Opacus.C16.history_not_aliased_on_save",
     "Opacus.C16.load_aliases_history_asCoded",
     "Opacus.C16.load_aliasing_witness",
+    "Opacus.C16.generated_load_state_dict_eq_model",
+    "Opacus.C16.generated_load_none_rejected",
+    "Opacus.C16.generated_checkpoint_keys_eq_model",
 ]
 RULE = (
     "case = (accountant, inner optimizer, sigma0, C0, sample rate, noise schedule, clip schedule, op sequence over "
@@ -55,6 +58,7 @@ RULE = (
     "history); distinct by (accountant, optimizer, schedule kinds, op sequence)"
 )
 TRUSTED = [
+    "the translator vharness/props/c16_trans.py (Python `ast` -> the guard clauses of IAccountant.load_state_dict in Python's exception semantics, what IAccountant.state_dict stores, and the (key, component, conditional) tables of PrivacyEngine.save_checkpoint / load_checkpoint; subset in its docstring, anything else is reported as a broken tie) is trusted to render those four functions faithfully; a state dict is modelled by the presence and value of its two keys `history` and `mechanism`",
     "torch.save / torch.load round-trip python floats, ints, tuples, tensors and module-level functions exactly (modelled as value copy)",
     "the training step is a deterministic function of (parameters, inner optimizer state, batches with their clip bounds, sigma, C, noise generator state): `train` is a parameter of the Lean machine; checked by the oracle on real training (bitwise equal parameters)",
     "epsilon is a function of the accountant's class and history only (checked on the real accountants at every load)",
@@ -551,7 +555,14 @@ def detect_variant(ctx):
     return ("repaired" if s == 8.0 else "asCoded"), s
 
 
+def regenerate(ctx):
+    from .. import regen
+    from . import c16_trans as T
+    regen.regenerate(ctx, T, "Opacus.Generated.CheckpointKeys", "accountant state_dict / load_state_dict, save_checkpoint / load_checkpoint keys")
+
+
 def run(ctx):
+    regenerate(ctx)
     torch.set_num_threads(2)
     with rig.default_dtype(torch.float64):
         variant, s = detect_variant(ctx)
